@@ -1,6 +1,7 @@
 import Tahoe.Base.DrvUtil
 import Tahoe.Http.DrvText
 import Tahoe.Http.Client
+import Tahoe.Http.Direct
 /-! Driver for C31 (HTTP and direct storage access agree).
 
   hist <op> <op> …    client-level operations through the modelled HTTP client + server; prints one result per
@@ -14,6 +15,8 @@ import Tahoe.Http.Client
     q:<si>:<enabler>:<renew>:<cancel>:<rtw>             read_test_write_chunks → rtw:<T|F>:<reads>
                                                         (<rtw> as in DrvText, with `:` inside it not allowed)
     errors: err:<code> (ClientException) | clienterror (ValueError/AssertionError before anything is sent)
+  dhist <op> …                     the same operations on the direct path (`directStep`): results in the same syntax
+  hhist <op> …                     the HTTP path behind the gate (`handledStep`): must print what `hist` prints
   read <hex data> <off> <len>      → `httpRead` on a share holding <data>: data:<hex> | err:<code> | clienterror
   readmissing <off> <len>          → `httpReadOpt` on a missing share
   zeromode                         → the generated zero-length read variant: raise | empty | probe
@@ -57,6 +60,15 @@ def runOps (st : State) (acc : List String) : List String → Option (List Strin
       let r := clientStep swissnum st op
       runOps r.1 (showRes r.2 :: acc) rest
 
+def runWith (f : State → Op → State × Res) (st : State) (acc : List String) : List String → Option (List String × State)
+  | [] => some (acc.reverse, st)
+  | tok :: rest =>
+    match parseOp tok with
+    | none => none
+    | some op =>
+      let r := f st op
+      runWith f r.1 (showRes r.2 :: acc) rest
+
 def showClientRead : ClientRead → String
   | .data b => "data:" ++ hex b
   | .httpError c => s!"err:{c}"
@@ -82,6 +94,12 @@ def showRtwArgs (a : RtwArgs) : String :=
 
 def handle : List String → String
   | "hist" :: ops => match runOps {} [] ops with
+    | none => "bad-op"
+    | some (outs, st) => " ".intercalate outs ++ " || " ++ showState st
+  | "dhist" :: ops => match runWith directStep {} [] ops with
+    | none => "bad-op"
+    | some (outs, st) => " ".intercalate outs ++ " || " ++ showState st
+  | "hhist" :: ops => match runWith handledStep {} [] ops with
     | none => "bad-op"
     | some (outs, st) => " ".intercalate outs ++ " || " ++ showState st
   | ["read", d, off, len] =>
